@@ -123,7 +123,75 @@ Lemma fs_session_unreachable_lemma :
   forall segs, Forall (fun seg => caps_fs (fst seg) = false) segs -> forall n, ~ In ("fs", n) (reachable_session segs).
 Proof. apply (session_unreachable "fs" "fs"); [reflexivity|vm_compute; reflexivity]. Qed.
 
-(* ... but lowering the capability later does not unregister anything *)
+(* what is registered is a std native or was there from the start *)
+Lemma std_natives_known (c : config) (m m' n : string) : In (m', n) (std_natives c m) -> In (m', n) (natives_of m').
+Proof.
+  intro H. pose proof (std_natives_module c m m' n H) as ->. revert H.
+  unfold std_natives. destruct (smem m std_modules); [|intros []].
+  unfold register. destruct (smem m register_arms); [|intros []].
+  destruct (sassoc m gated_arms) as [bit|]; [destruct (cap_bit c bit); [auto|intros []]|auto].
+Qed.
+
+Lemma request_natives_known (c : config) (r : load_request) (m n : string) :
+  In (m, n) (request_natives c r) -> In (m, n) (natives_of m).
+Proof.
+  destruct r as [m0|gs]; cbn [request_natives]; intro H.
+  - exact (std_natives_known c m0 m n H).
+  - apply in_flat_map in H as (m0 & _ & H). exact (std_natives_known c m0 m n H).
+Qed.
+
+Lemma reachable_from_known (c : config) (reqs : list load_request) :
+  forall st m n, In (m, n) (reachable_from st c reqs) -> In (m, n) st \/ In (m, n) (natives_of m).
+Proof.
+  induction reqs as [|r reqs IH]; intros st m n H; unfold reachable_from in *; cbn [fold_left] in H; [left; exact H|].
+  apply IH in H as [H|H]; [|right; exact H].
+  apply add_new_In in H as [H|H]; [left; exact H|right; exact (request_natives_known c r m n H)].
+Qed.
+
+Lemma reachable_session_known (segs : list (config * list load_request)) (m n : string) :
+  In (m, n) (reachable_session segs) -> In (m, n) vm_init \/ In (m, n) (natives_of m).
+Proof.
+  unfold reachable_session.
+  assert (G : forall st, In (m, n) (fold_left (fun st seg => reachable_from st (fst seg) (snd seg)) segs st) ->
+                         In (m, n) st \/ In (m, n) (natives_of m)).
+  { induction segs as [|seg segs IH]; intros st H; cbn [fold_left] in H; [left; exact H|].
+    apply IH in H as [H|H]; [|right; exact H]. exact (reachable_from_known (fst seg) (snd seg) st m n H). }
+  apply G.
+Qed.
+
+(* every native of a gated module re-checks its capability on each call *)
+Definition gated_natives_percall (m : string) : bool := forallb (fun n => nmem n percall_guarded) (natives_of m).
+
+Lemma call_guard_denied (c : config) (m bit n : string) :
+  gate_of m = Some bit -> gated_natives_percall m = true -> cap_bit c bit = false ->
+  In (m, n) (natives_of m) -> call_guard c (m, n) = CallDenied.
+Proof.
+  intros Hg Hp Hb Hin. unfold call_guard; cbn [fst]. unfold gate_of in Hg. rewrite Hg.
+  unfold gated_natives_percall in Hp. rewrite forallb_forall in Hp. rewrite (Hp _ Hin), Hb. reflexivity.
+Qed.
+
+(* whatever the history of the session -- including configurations that permitted the module --
+   a gated native that is registered refuses when called under a configuration without the bit *)
+Lemma revoked_capability_refused (m bit : string) :
+  gate_of m = Some bit -> gated_natives_percall m = true -> init_free_of m = true ->
+  forall (segs : list (config * list load_request)) (c : config) (n : string),
+    cap_bit c bit = false -> In (m, n) (reachable_session segs) -> call_guard c (m, n) = CallDenied.
+Proof.
+  intros Hg Hp Hi segs c n Hb Hin.
+  apply reachable_session_known in Hin as [Hin|Hin]; [exfalso; exact (init_free_spec m n Hi Hin)|].
+  exact (call_guard_denied c m bit n Hg Hp Hb Hin).
+Qed.
+
+Lemma fs_revoked_refused :
+  forall segs c n, caps_fs c = false -> In ("fs", n) (reachable_session segs) -> call_guard c ("fs", n) = CallDenied.
+Proof. apply (revoked_capability_refused "fs" "fs"); [reflexivity|vm_compute; reflexivity|vm_compute; reflexivity]. Qed.
+
+Lemma net_revoked_refused :
+  forall segs c n, caps_net c = false -> In ("net", n) (reachable_session segs) -> call_guard c ("net", n) = CallDenied.
+Proof. apply (revoked_capability_refused "net" "net"); [reflexivity|vm_compute; reflexivity|vm_compute; reflexivity]. Qed.
+
+(* lowering the capability later does not UNREGISTER anything (still true, and harmless now:
+   see fs_revoked_refused) *)
 Definition cfg_fs_on : config :=
   {| caps_fs := true; caps_net := false; caps_exec := false; allowed := []; denied := []; hot_reload := false |}.
 
@@ -239,20 +307,26 @@ Section Decisions.
     destruct (p_version p) as [rq|]; [|discriminate Hv]. rewrite Hv, Hc, Hs. reflexivity.
   Qed.
 
-  (* the source route consults the project manifest *)
-  Lemma source_route_applies_manifest (c : config) (project embedded : option (manifest vreq)) (path : list string) (f : nfile) :
-    route_decision vreq ver sat RSource c project embedded path f
+  (* every route consults the project manifest when the bytecode embeds none *)
+  Lemma route_applies_project_manifest (r : route) (c : config) (project : option (manifest vreq)) (path : list string) (f : nfile) :
+    route_decision vreq ver sat r c project None path f
     = decision c (match project with Some m => module_policy vreq m path | None => None end) f.
+  Proof. destruct r; reflexivity. Qed.
+
+  (* an embedded manifest takes the place of the project manifest for bytecode only *)
+  Lemma avbc_route_embedded_manifest (c : config) (project : option (manifest vreq)) (emb : manifest vreq) (path : list string) (f : nfile) :
+    route_decision vreq ver sat RAvbc c project (Some emb) path f = decision c (module_policy vreq emb path) f.
   Proof. reflexivity. Qed.
 
-  (* the assembly route consults no manifest: whatever the project manifest says, the module is loaded *)
-  Lemma aasm_route_ignores_manifest (c : config) (project embedded : option (manifest vreq)) (path : list string) (f : nfile) :
-    route_decision vreq ver sat RAasm c project embedded path f = [ELoaded; EInit; ERegistered].
-  Proof. reflexivity. Qed.
+  (* hence: a capability the configuration denies, listed by the manifest entry, refuses on every route *)
+  Lemma denied_capability_refuses_on_every_route (r : route) (c : config) (m : manifest vreq) (p : policy)
+        (path : list string) (f : nfile) (cap : string) :
+    module_policy vreq m path = Some p -> In cap (p_caps p) -> In cap (denied c) ->
+    exists bad, route_decision vreq ver sat r c (Some m) None path f = [ERefusedCap bad].
+  Proof.
+    intros Hm Hin Hd. rewrite route_applies_project_manifest, Hm. exact (cap_denied_refuses c p f cap Hin Hd).
+  Qed.
 
-  Lemma avbc_route_without_embedded_manifest (c : config) (project : option (manifest vreq)) (path : list string) (f : nfile) :
-    route_decision vreq ver sat RAvbc c project None path f = [ELoaded; EInit; ERegistered].
-  Proof. reflexivity. Qed.
 End Decisions.
 
 (* concrete witnesses (versions as triples, requirement `>= v`) *)
@@ -267,11 +341,17 @@ Lemma version_after_load_witness :
   has_event ELoaded (native_module_decision ver3 ver3 ver_geb default_config (Some w_policy_version) w_file) = true.
 Proof. vm_compute. split; reflexivity. Qed.
 
-Lemma aasm_witness :
+Lemma routes_agree_witness :
   route_decision ver3 ver3 ver_geb RSource w_cfg_deny (Some [("sentry", w_policy_denied)]) None ["sentry"] w_file = [ERefusedCap "danger"] /\
-  route_decision ver3 ver3 ver_geb RAasm w_cfg_deny (Some [("sentry", w_policy_denied)]) None ["sentry"] w_file = [ELoaded; EInit; ERegistered] /\
-  route_decision ver3 ver3 ver_geb RAvbc w_cfg_deny (Some [("sentry", w_policy_denied)]) None ["sentry"] w_file = [ELoaded; EInit; ERegistered].
+  route_decision ver3 ver3 ver_geb RAasm w_cfg_deny (Some [("sentry", w_policy_denied)]) None ["sentry"] w_file = [ERefusedCap "danger"] /\
+  route_decision ver3 ver3 ver_geb RAvbc w_cfg_deny (Some [("sentry", w_policy_denied)]) None ["sentry"] w_file = [ERefusedCap "danger"].
 Proof. vm_compute. repeat split; reflexivity. Qed.
+
+(* OLD DEFINITION ONLY (before the repair of KF-C11-2) *)
+Lemma old_routes_ignored_manifest :
+  route_decision_before_fix ver3 ver3 ver_geb RAasm w_cfg_deny (Some [("sentry", w_policy_denied)]) None ["sentry"] w_file = [ELoaded; EInit; ERegistered] /\
+  route_decision_before_fix ver3 ver3 ver_geb RAvbc w_cfg_deny (Some [("sentry", w_policy_denied)]) None ["sentry"] w_file = [ELoaded; EInit; ERegistered].
+Proof. vm_compute. split; reflexivity. Qed.
 
 (* ---------------------------------------------------------------- flag spellings *)
 Definition caps_of (r : presult) : option (bool * bool * bool) :=
@@ -332,7 +412,11 @@ Definition tables_ok : bool :=
   slist_eqb dynamic_check_order ["Caps"; "Checksum"; "Load"; "Version"] &&
   slist_eqb embedded_check_order ["Caps"; "Checksum"; "Load"; "Version"] &&
   empty_capability_list_skips_check && source_route_uses_project_manifest &&
-  avbc_route_uses_embedded_manifest_only && aasm_route_passes_no_manifest &&
+  aasm_route_uses_project_manifest && avbc_route_falls_back_to_project_manifest &&
+  (* every native of std.fs / std.net re-checks its capability per call *)
+  gated_natives_percall "fs" && gated_natives_percall "net" &&
+  (* no native outside the gated modules touches files / processes / sockets unchecked *)
+  (match ungated_effectful with [] => true | _ => false end) &&
   N.eqb fnv_offset_file fnv_offset_bytes && N.eqb fnv_prime_file fnv_prime_bytes.
 
 Lemma tables_ok_true : tables_ok = true.
